@@ -242,3 +242,5 @@ def run_r6(F, rep, tier="quick"):
     rep.floor("C11-R6", "shape-table evaluations", n_eval, 400)
     from rules.loopshape import c11_block_operand_positions
     c11_block_operand_positions(F, rep)
+    from rules import c11_alloc
+    c11_alloc.run(F, rep)
